@@ -46,6 +46,12 @@ func C06(c *Ctx) {
 		Compare:    CmpVal | CmpErrs | CmpOK | CmpEnd | CmpTrace | CmpMemoOnce,
 		NonTrivial: func(m *ref.Result) bool { return m.Backtracks >= 2 && len(m.Trace) >= 2 },
 		StalePS:    "F02-stale-pred-pos",
+		ExtraInputs: func(g *gast.Grammar, _ *rand.Rand) [][]byte {
+			if g.Rules[0].Name == "SErr" {
+				return [][]byte{[]byte("1;2;3;4;5;6;"), []byte("1a;2b;3;4;5c;6;7;8"), []byte("0;1;2;3;4;5;6;7;8;9;0b;1c;")}
+			}
+			return nil
+		},
 	}
 	c.runKnownF20()
 	c.ModelCheck(cfg)
@@ -203,6 +209,11 @@ func c06Strata() []*gast.Grammar {
 		// a re-reached match that spans a newline followed by multi-byte runes (positions after a cache hit)
 		mk(r("S", gast.C(gast.S(gast.Lab("a", gast.Ref("B")), gast.L("!"), act(gast.Star(gast.Dot()), 1)), gast.S(gast.Lab("a", gast.Ref("B")), gast.L("?"), gast.Lab("b", gast.Ref("T")), act(gast.Star(gast.Dot()), 2)))),
 			r("B", act(gast.S(gast.Plus(gast.Cl(gast.Chars("xé"))), gast.L("\n"), gast.Star(gast.Cl(gast.Chars("é世")))), 3)), r("T", gast.A(gast.Plus(gast.Cl(gast.Chars("zé\n"))), 4, mon.Spec{E: 1}))),
+		// an erroring block re-run through alternatives with a common prefix, many erroneous items:
+		// the error list (after de-duplication) is the same with and without the cache
+		mk(r("SErr", gast.S(gast.Star(gast.S(gast.Ref("I"), gast.L(";"))), gast.Star(gast.Dot()))),
+			r("I", gast.C(gast.S(gast.Ref("N"), gast.L("a")), gast.S(gast.Ref("N"), gast.L("b")), gast.S(gast.Ref("N"), gast.L("c")), gast.Ref("N"))),
+			r("N", gast.A(gast.Cl(&gast.ClassSpec{Ranges: [][2]rune{{'0', '9'}}}), 1, mon.Spec{E: 1}))),
 	}
 }
 
